@@ -40,7 +40,9 @@ def matcher_texts(rng, st):
                 '%s, %s ! .%s' % (e['rec']['iface'], rng.choice(es)['rec']['iface'], e['rec']['name']), '(nil)', '.(x=0)',
                 '%s.[%s, %s]' % (e['rec']['iface'], e['rec']['name'], rng.choice(es)['rec']['name']), '! ' + e['rec']['iface'],
                 '%s:' % nm, '[%s ! %d].%s' % (e['rec']['iface'], e['rec']['id'], e['rec']['name']), '*', '!', '.new', lab + '.destroyed',
-                '("hello")', '(1.5)', 'wl_*', '.(wl_surface)', '@%s' % lab]
+                '("hello")', '(1.5)', 'wl_*', '.(wl_surface)', '@%s' % lab,
+                '(! 5)', '.%s(! x=1)' % e['rec']['name'], '%s.*(! nil)' % e['rec']['iface'], '(0 ! 1)', '([1, 2] ! 3)', '.(! [x, y]=1, nil)',
+                '[! %s]' % e['rec']['iface'], '.[! %s]' % e['rec']['name'], '(! )', '( ! *)']
     return out
 
 
@@ -122,11 +124,19 @@ def streams_of(s, strip):
     return [(k, f(p)) for k, p in s.events if k in ('out', 'err', 'ui')]
 
 
-def check_script(ctx, script, rng):
-    case = {'script': script}
+def check_script(ctx, script, rng, coloured_first=None):
+    if coloured_first is None:
+        coloured_first = rng.random() < 0.5
+    case = {'script': script, 'coloured_first': coloured_first}
     try:
-        plain = run_script(script, False)
-        col = run_script(script, True)
+        # either order: what one session printed must not leak into the next one of the same process
+        if not coloured_first:
+            plain = run_script(script, False)
+            col = run_script(script, True)
+        else:
+            col = run_script(script, True)
+            plain = run_script(script, False)
+            ctx.count('coloured_session_first')
     except Exception as e:
         import traceback
         ctx.violation('session-exception', '%s: %r' % (type(e).__name__, e), case, tb=traceback.format_exc()[-1500:])
@@ -314,4 +324,4 @@ def replay(ctx, case):
                     print('colour', color, 'item', j, 'plain cmds:', a[j:j + 1], 'coloured cmds:', b[j:j + 1])
                     break
     else:
-        check_script(ctx, script, ctx.rng)
+        check_script(ctx, script, ctx.rng, bool(case.get('coloured_first')))
